@@ -430,6 +430,67 @@ func crashWorkload(ctx *vrun.Ctx, f *Factory, path []tlc.Step, cache uint64, nes
 		if err != nil {
 			return err
 		}
+		// a second crash: the recovered node takes the deliveries again and dies after j2 further commits
+		// (ChainStore.tla lets Crash and Recover alternate without bound; the first crash can leave
+		// in-memory bookkeeping of the recovery that only matters when the node dies again)
+		second := func(j2 int) (reached bool, err error) {
+			n, err := newCrashNode(f, cache, k, prune, maxFile)
+			if err != nil {
+				return false, err
+			}
+			defer n.close()
+			for _, o := range ops {
+				if _, c := n.step(o); c {
+					break
+				}
+			}
+			if e, _ := n.reopenAfterCrash(-1); e != nil {
+				return false, nil // reported by run(-1)
+			}
+			n.wrap.crashAt = n.wrap.commits + j2
+			crashed := false
+			for _, o := range ops {
+				if o.op == "block" || o.op == "header" || o.op == "flush" {
+					if _, c := n.step(o); c {
+						crashed = true
+						break
+					}
+				}
+			}
+			if !crashed {
+				return false, nil
+			}
+			what := fmt.Sprintf("second crash, %d commits after the recovery", j2)
+			rp := map[string]any{"scenario": f.String(), "cache": cache, "workload": fmt.Sprint(ops), "crash_after_commit": k, "second_crash_after": j2}
+			e, _ := n.reopenAfterCrash(-1)
+			ctx.AddEval(1)
+			ctx.Distinct(fmt.Sprintf("%s|%d|%v|%d|second%d", f.String(), cache, ops, k, j2))
+			if e != nil {
+				ctx.Violation("recovery-failed:second-crash", fmt.Sprintf("%s [%s]: the database does not reopen: %v", desc(k), what, e), rp)
+				return true, nil
+			}
+			if d := n.asNode().CheckViews(); d != "" {
+				ctx.Violation("recovered-views", fmt.Sprintf("%s [%s]: %s", desc(k), what, d), rp)
+				return true, nil
+			}
+			if d := n.asNode().CheckUtxo(); d != "" {
+				ctx.Violation("recovered-utxo-not-fold", fmt.Sprintf("%s [%s]: %s", desc(k), what, d), rp)
+				return true, nil
+			}
+			converge(n, what)
+			return true, nil
+		}
+		{
+			nsec := secondCrashes
+			if prune != 0 {
+				nsec = secondCrashesPruned
+			}
+			for _, j2 := range pickSecond(total, nsec, k) {
+				if _, err := second(j2); err != nil {
+					return err
+				}
+			}
+		}
 		if nested {
 			for j := 0; j < rc; j++ {
 				if _, err := run(j); err != nil {
@@ -441,6 +502,35 @@ func crashWorkload(ctx *vrun.Ctx, f *Factory, path []tlc.Step, cache uint64, nes
 	ctx.AddTraces(1)
 	ctx.Sample(map[string]any{"scenario": f.String(), "cache": cache, "workload": fmt.Sprint(ops), "durable_commits": total, "crash_points": total})
 	return nil
+}
+
+// secondCrashes is the number of second-crash points tried per first crash
+// point (set per tier by RunModel).
+var secondCrashes, secondCrashesPruned = 1, 4
+
+// pickSecond spreads n second-crash points over the commits a continuation
+// can make (n <= 0: every point).
+func pickSecond(total, n, k int) []int {
+	if total < 1 {
+		return nil
+	}
+	if n <= 0 || n >= total {
+		out := make([]int, 0, total)
+		for j := 1; j <= total; j++ {
+			out = append(out, j)
+		}
+		return out
+	}
+	seen := map[int]bool{}
+	var out []int
+	for i := 1; i <= n; i++ {
+		j := (i*total/(n+1)+k)%total + 1
+		if !seen[j] {
+			seen[j] = true
+			out = append(out, j)
+		}
+	}
+	return out
 }
 
 func copySet(m map[int]bool) map[int]bool {
